@@ -199,23 +199,28 @@ Section Tie.
   (* histories: every call through the table *)
   Lemma nl_step_tie l o : nl_step_t tbl l o = Ok (nl_step l o).
   Proof.
-    destruct o as [t v|t v|t v|t]; cbn [nl_step_t nl_step].
+    destruct o as [t v|t v|t v|t| |]; cbn [nl_step_t nl_step].
     - rewrite nlv_set_tie. reflexivity.
     - rewrite nlv_append_tie. reflexivity.
     - rewrite nlv_add_tie. reflexivity.
     - reflexivity.
+    - rewrite nlv_count_tie. reflexivity.
+    - reflexivity.
+  Qed.
+
+  Lemma nl_obs_tie l o : nl_obs_t tbl l o = Ok (nl_obs l o).
+  Proof.
+    destruct o as [t v|t v|t v|t| |]; cbn [nl_obs_t nl_obs]; try reflexivity.
+    - rewrite nlv_get_tie. unfold nl_answer_of. cbn [obind fst]. destruct (nl_get l t); reflexivity.
+    - rewrite nlv_count_tie. unfold nl_count_of. cbn [obind fst].
+      pose proof (Zle_0_nat (nl_count l)) as H. apply Z.ltb_ge in H. rewrite H. rewrite Nat2Z.id. reflexivity.
+    - rewrite nlv_first_tie. reflexivity.
   Qed.
 
   Lemma nl_run_tie ops : forall l, nl_run_t tbl l ops = Ok (nl_run l ops).
   Proof.
     induction ops as [|o r IH]; intro l; [reflexivity|].
-    cbn [nl_run_t nl_run]. rewrite nl_step_tie.
-    assert (match o with
-            | OGet t => obind (nl_answer_of (nlv_get_t tbl l t)) (fun a => Ok [a])
-            | _ => Ok []
-            end = Ok (match o with OGet t => [nl_get l t] | _ => [] end)) as ->.
-    { destruct o; try reflexivity. rewrite nlv_get_tie. unfold nl_answer_of. cbn [obind fst].
-      destruct (nl_get l t); reflexivity. }
+    cbn [nl_run_t nl_run]. rewrite nl_obs_tie, nl_step_tie.
     cbn [obind]. rewrite IH. cbn [obind]. destruct (nl_run (nl_step l o) r). reflexivity.
   Qed.
 End Tie.
